@@ -120,6 +120,16 @@ def read():
             idx["effect"] = i
     ok = (None not in idx.values()) and idx["member"] < idx["validate"] < idx["refuse"] < idx["effect"]
     out["validation_order"] = "member_validate_refuse_then_effects" if ok else "unknown:" + ",".join(f"{k}={v}" for k, v in idx.items())
+    # time: the coordinator may only sleep in its two idle heart-beat loops; no time-outs, no timers anywhere else
+    timed = []
+    for n in ast.walk(tree):
+        if isinstance(n, ast.Call):
+            f = ast.unparse(n.func)
+            if f in ("asyncio.sleep", "asyncio.wait_for", "asyncio.timeout", "asyncio.timeout_at") or f.endswith(".call_later") or f.endswith(".call_at") or f.startswith("time."):
+                timed.append(f + "(" + ", ".join(ast.unparse(a) for a in n.args) + ")")
+            elif any(k.arg == "timeout" for k in n.keywords):
+                timed.append(f + "(timeout=...)")
+    out["time_dependence"] = "two_heartbeat_sleeps" if sorted(timed) == ["asyncio.sleep(1)", "asyncio.sleep(1)"] else "other:" + ";".join(sorted(timed))[:200]
     # _respond_bad_request must put a BAD_REQUEST message on the sender's queue
     rb = find_func(gc, "_respond_bad_request")
     txt = ast.unparse(rb)
@@ -154,7 +164,7 @@ def emit(d):
              "; ".join(f"({n}, {coq_str(h)}, {'true' if a else 'false'}, {'true' if b else 'false'})" for n, h, a, b in d["arms"]) + "].")
     L.append("Definition gen_required_params : list (atype * list (string * string)) := [" +
              "; ".join(f"({t}, [" + "; ".join(f"({coq_str(a)}, {coq_str(b)})" for a, b in ps) + "])" for t, ps in d["required"]) + "].")
-    for k in ("default", "parse_failure", "after_parse", "validation_shape", "validation_order", "conn_failure", "conn_cleanup", "admission", "limit"):
+    for k in ("default", "parse_failure", "after_parse", "validation_shape", "validation_order", "time_dependence", "conn_failure", "conn_cleanup", "admission", "limit"):
         L.append(f"Definition gen_{k} : string := {coq_str(d[k])}.")
     L.append("")
     return "\n".join(L)
